@@ -54,6 +54,9 @@ CLAIMED = {
     "C18": ("runtime monitoring: boundary recorder on TabularGridGame.next_state_dist/joint_rewards/is_terminal over all explored non-terminal states x all 25 joint actions of each generated layout, physical-constraint oracle computed from the generated layout; boundary recorder on DiscreteFactorTable &, |, *, marginalize, probs with a reference natural join on flattened nested rows",
             "Held-on-K-executions; per layout the (explored state, joint action) space is enumerated completely in the thorough tier (capped in quick). Exploration overall: layouts and tables are sampled.",
             "coordinates x=column, y=height-1-row (verified against the initial state); fences judged only for normalisation", "§4 C18"),
+    "C20": ("runtime monitoring: boundary recorder on every model function over the whole state x action (x observation) space of each generated domain instance, array builders and a ValueIteration planning probe; oracle = normalisation / closure / finiteness clauses and a reference of the plain grid-world physics",
+            "Held-on-K-executions over generated layouts and parameter settings of the six built-in domains; each instance is checked exhaustively over its own state/action space. Exploration: layouts/parameters are sampled.",
+            "coordinates x=column, y=height-1-row; layouts contain >=1 start cell; known finding C20-absorbing-cell-cuts-the-grid is mechanism-keyed", "§4 C20"),
 }
 
 PENDING_REASON = "check not built yet in this round (design in DESIGN.md §4); not claimed until its monitor exists and is silent on the unchanged tree"
